@@ -125,22 +125,10 @@ theorem step_emit0_cases (w : TW) (n : Notif) (hsrc : w.src = .hot 0) (h : ¬ 0 
       exact ⟨_, TW.step_emit_next w 0 v hsrc hc hsub hal, Or.inr (Or.inl ⟨rfl, rfl⟩)⟩
     | error e =>
       have := TW.step_emit_term w 0 (.error e) rfl hsrc hc hsub hal
-      cases hf : fin w.stages with
-      | true =>
-        rw [hf] at this
-        exact ⟨_, this, Or.inl rfl⟩
-      | false =>
-        rw [hf] at this
-        exact ⟨_, this, Or.inr (Or.inr ⟨rfl, rfl⟩)⟩
+      exact ⟨_, this, Or.inr (Or.inr ⟨rfl, rfl⟩)⟩
     | complete =>
       have := TW.step_emit_term w 0 .complete rfl hsrc hc hsub hal
-      cases hf : fin w.stages with
-      | true =>
-        rw [hf] at this
-        exact ⟨_, this, Or.inl rfl⟩
-      | false =>
-        rw [hf] at this
-        exact ⟨_, this, Or.inr (Or.inr ⟨rfl, rfl⟩)⟩
+      exact ⟨_, this, Or.inr (Or.inr ⟨rfl, rfl⟩)⟩
 
 theorem WInvF.noOp2n (I : WInvF kd sf w) : NoOp2n w.stages := by
   obtain ⟨up, _, hch⟩ := I.dyn.chain
